@@ -44,6 +44,7 @@ pub fn ptr0<'tcx>(cell: usize) -> Ptr<'tcx> {
 
 #[derive(Clone)]
 pub struct Frame<'tcx> {
+    pub visits: Vec<u16>,
     pub inst: Instance<'tcx>,
     pub body: &'tcx Body<'tcx>,
     pub locals: Vec<usize>,
@@ -66,6 +67,8 @@ pub enum Outcome<'tcx> {
     Ret(V<'tcx>, Ty<'tcx>, State<'tcx>),
     Panic(String, String),
     Top(String),
+    /// bounded unrolling: the path was cut because a block was re-entered more often than MIRSUM_LOOP_BOUND allows
+    Cut(String),
     Ite(T, Box<Outcome<'tcx>>, Box<Outcome<'tcx>>),
     Switch(T, Vec<(u128, Outcome<'tcx>)>, Option<Box<Outcome<'tcx>>>),
 }
@@ -80,6 +83,7 @@ pub struct Stats {
 }
 
 pub struct Cx<'tcx> {
+    pub loop_bound: Option<usize>,
     pub tcx: TyCtxt<'tcx>,
     pub tenv: TypingEnv<'tcx>,
     pub stats: std::cell::RefCell<Stats>,
@@ -100,6 +104,7 @@ fn push_uniq(v: &mut Vec<String>, s: String) {
 impl<'tcx> Cx<'tcx> {
     pub fn new(tcx: TyCtxt<'tcx>, tenv: TypingEnv<'tcx>) -> Self {
         Cx {
+            loop_bound: std::env::var("MIRSUM_LOOP_BOUND").ok().and_then(|s| s.parse().ok()),
             tcx,
             tenv,
             stats: std::cell::RefCell::new(Stats { steps: 0, leaves: 0, fresh: 0, inlined: vec![], models: vec![], uninterp: vec![] }),
@@ -468,13 +473,54 @@ impl<'tcx> Cx<'tcx> {
                 }
             }
         }
-        let t = app("const", vec![cstr(&format!("{}", cc))]);
+        let shown = match cc.eval(self.tcx, self.tenv, c.span) {
+            Ok(val) => self.str_slice_const(val, ty).unwrap_or_else(|| format!("{}", mir::Const::Val(val, ty))),
+            Err(_) => format!("{}", cc),
+        };
+        let t = app("const", vec![cstr(&shown)]);
         if let ty::Ref(_, inner, _) = ty.kind() {
             let v = self.shape(st, *inner, t);
             st.cells.push(Cell { ty: *inner, v, name: None });
             return Ok(V::Ref(ptr0(st.cells.len() - 1)));
         }
         Ok(self.shape(st, ty, t))
+    }
+
+    /// contents of a `&[&str]` constant (serde field tables), read from the constant's allocations
+    fn str_slice_const(&self, val: mir::ConstValue, ty: Ty<'tcx>) -> Option<String> {
+        let ty::Ref(_, inner, _) = ty.kind() else { return None };
+        let ty::Slice(elem) = inner.kind() else { return None };
+        let ty::Ref(_, e2, _) = elem.kind() else { return None };
+        if !e2.is_str() {
+            return None;
+        }
+        let tcx = self.tcx;
+        let ps = tcx.data_layout.pointer_size().bytes() as usize;
+        let read_usize = |bytes: &[u8]| -> usize {
+            let mut x = 0usize;
+            for (i, b) in bytes.iter().enumerate() {
+                x |= (*b as usize) << (8 * i);
+            }
+            x
+        };
+        let mir::ConstValue::Indirect { alloc_id, offset } = val else { return None };
+        let a = tcx.global_alloc(alloc_id).unwrap_memory().inner();
+        let off = offset.bytes() as usize;
+        let prov = a.provenance().get_ptr(rustc_abi::Size::from_bytes(off as u64))?;
+        let arr_off = read_usize(a.inspect_with_uninit_and_ptr_outside_interpreter(off..off + ps));
+        let len = read_usize(a.inspect_with_uninit_and_ptr_outside_interpreter(off + ps..off + 2 * ps));
+        let arr = tcx.global_alloc(prov.alloc_id()).unwrap_memory().inner();
+        let mut out = vec![];
+        for i in 0..len {
+            let o = arr_off + i * 2 * ps;
+            let p2 = arr.provenance().get_ptr(rustc_abi::Size::from_bytes(o as u64))?;
+            let soff = read_usize(arr.inspect_with_uninit_and_ptr_outside_interpreter(o..o + ps));
+            let slen = read_usize(arr.inspect_with_uninit_and_ptr_outside_interpreter(o + ps..o + 2 * ps));
+            let sa = tcx.global_alloc(p2.alloc_id()).unwrap_memory().inner();
+            let bytes = sa.inspect_with_uninit_and_ptr_outside_interpreter(soff..soff + slen);
+            out.push(format!("{:?}", String::from_utf8_lossy(bytes)));
+        }
+        Some(format!("&[{}]", out.join(", ")))
     }
 
     fn eval_operand(&self, st: &mut State<'tcx>, op: &Operand<'tcx>) -> R<V<'tcx>> {
@@ -834,6 +880,18 @@ impl<'tcx> Cx<'tcx> {
                     return Outcome::Top("leaf cap".into());
                 }
             }
+            if let Some(bound) = self.loop_bound {
+                let f = st.frames.last_mut().unwrap();
+                if f.visits.is_empty() {
+                    f.visits = vec![0; f.body.basic_blocks.len()];
+                }
+                let i = f.bb.as_usize();
+                f.visits[i] += 1;
+                if f.visits[i] as usize > bound {
+                    self.stats.borrow_mut().leaves += 1;
+                    return Outcome::Cut(format!("loop bound {} exceeded", bound));
+                }
+            }
             let fr = st.frames.last().unwrap().clone();
             let data = &fr.body.basic_blocks[fr.bb];
             for stmt in &data.statements {
@@ -854,7 +912,10 @@ impl<'tcx> Cx<'tcx> {
                         }
                     }
                     StatementKind::SetDiscriminant { .. } => return self.top("SetDiscriminant".into(), stmt.source_info.span),
-                    StatementKind::Intrinsic(_) => return self.top("intrinsic statement".into(), stmt.source_info.span),
+                    StatementKind::Intrinsic(i) => match &**i {
+                        mir::NonDivergingIntrinsic::Assume(_) => {}
+                        _ => return self.top("intrinsic statement".into(), stmt.source_info.span),
+                    },
                     _ => {}
                 }
             }
@@ -1154,6 +1215,10 @@ impl<'tcx> Cx<'tcx> {
                 return Ok(Some(r));
             }
         }
+        if (name == "core::cmp::PartialEq::eq" || name == "core::cmp::PartialEq::ne") && self_ty.map(|t| { let t = match t.kind() { ty::Ref(_, i, _) => *i, _ => t }; t.is_str() }).unwrap_or(false) {
+            let (a, b) = (self.sc(st, &argv[0])?, self.sc(st, &argv[1])?);
+            return Ok(Some(V::Sym(app(if name.ends_with("::eq") { "eq" } else { "ne" }, vec![a, b]))));
+        }
         // memory primitives (any types)
         match pretty {
             "std::ptr::swap" | "core::ptr::swap" | "std::mem::swap" | "core::mem::swap" => {
@@ -1339,7 +1404,7 @@ impl<'tcx> Cx<'tcx> {
                         st.cells[locals[i + 1]].v = a.clone();
                     }
                 }
-                st.frames.push(Frame { inst, body, locals, bb: mir::START_BLOCK, ret_to: Some((dest, target)) });
+                st.frames.push(Frame { visits: vec![], inst, body, locals, bb: mir::START_BLOCK, ret_to: Some((dest, target)) });
                 return Ok(None);
             }
         }
@@ -1437,7 +1502,7 @@ impl<'tcx> Cx<'tcx> {
             } else {
                 return Err(format!("callable with {} args", body.arg_count));
             }
-            s2.frames.push(Frame { inst, body, locals, bb: mir::START_BLOCK, ret_to: None });
+            s2.frames.push(Frame { visits: vec![], inst, body, locals, bb: mir::START_BLOCK, ret_to: None });
             let o = self.run(s2);
             Ok(format!("{{\"callable\":{},\"item_ty\":{},\"out\":{}}}", jstr(&format!("{:?}", fty)), jstr(&format!("{:?}", item_ty)), self.jout(&o, &[])))
         })();
@@ -1524,6 +1589,7 @@ impl<'tcx> Cx<'tcx> {
             }
             Outcome::Panic(k, sp) => format!("{{\"k\":\"panic\",\"why\":{},\"span\":{}}}", jstr(k), jstr(sp)),
             Outcome::Top(w) => format!("{{\"k\":\"top\",\"why\":{}}}", jstr(w)),
+            Outcome::Cut(w) => format!("{{\"k\":\"cut\",\"why\":{}}}", jstr(w)),
             Outcome::Ite(c, a, b) => format!("{{\"k\":\"ite\",\"c\":{},\"t\":{},\"e\":{}}}", c, self.jout(a, post), self.jout(b, post)),
             Outcome::Switch(c, arms, other) => {
                 let parts: Vec<String> = arms.iter().map(|(v, o)| format!("[\"{}\",{}]", v, self.jout(o, post))).collect();
@@ -1563,7 +1629,7 @@ pub fn summarise_root<'tcx>(tcx: TyCtxt<'tcx>, did: DefId) -> String {
         argdesc.push(format!("{{\"name\":{},\"ty\":{},\"v\":{}}}", jstr(&name), jstr(&format!("{:?}", ty)), cx.jval(&st, &v, ty)));
         st.cells[locals[i]].v = v;
     }
-    st.frames.push(Frame { inst, body, locals, bb: mir::START_BLOCK, ret_to: None });
+    st.frames.push(Frame { visits: vec![], inst, body, locals, bb: mir::START_BLOCK, ret_to: None });
     let t0 = std::time::Instant::now();
     let o = cx.run(st);
     let out = cx.jout(&o, &post);
